@@ -7,6 +7,11 @@ import (
 	"fmt"
 	"sort"
 	"strings"
+	"sync"
+	"time"
+
+	"github.com/google/flatbuffers/go"
+	"github.com/newrelic/newrelic-php-agent/daemon/internal/newrelic/protocol"
 
 	"github.com/newrelic/newrelic-php-agent/daemon/internal/newrelic/collector"
 )
@@ -38,7 +43,8 @@ func vSortedPairs(m map[string]bool) string {
 }
 
 func vLaspOp(t []string) string {
-	if vStr(t, 1) != "connect" {
+	viaProcessor := vStr(t, 1) == "pconnect"
+	if vStr(t, 1) != "connect" && !viaProcessor {
 		return "bad-op"
 	}
 	tok, _ := vKV(t, "token")
@@ -72,7 +78,10 @@ func vLaspOp(t []string) string {
 
 	var cmds []string
 	var connectPayload []byte
+	var cmu sync.Mutex
 	client := collector.ClientFn(func(cmd *collector.RpmCmd, cs collector.RpmControls) collector.RPMResponse {
+		cmu.Lock()
+		defer cmu.Unlock()
 		cmds = append(cmds, cmd.Name)
 		data, _ := cs.Collectible.CollectorJSON(false)
 		switch cmd.Name {
@@ -94,8 +103,19 @@ func vLaspOp(t []string) string {
 		SecurityPolicyToken: info.SecurityPolicyToken, Client: client, AppKey: info.Key(), AgentLanguage: "php",
 		AgentVersion: "1.0", AppSupportedSecurityPolicies: info.SupportedSecurityPolicies,
 	}
-	rep := ConnectApplication(args)
-	ok := rep.Err == nil && rep.Reply != nil
+	var ok bool
+	var returnedRaw []byte
+	if viaProcessor {
+		// the agent's App message through CommandsHandler and the real processor loop (processAppInfo, considerConnect,
+		// ConnectApplication in its goroutine, processConnectAttempt); a second query reads what agents are handed back
+		ok, returnedRaw = vLaspViaProcessor(info, client)
+		cmu.Lock()
+		defer cmu.Unlock()
+	} else {
+		rep := ConnectApplication(args)
+		ok = rep.Err == nil && rep.Reply != nil
+		returnedRaw = rep.RawSecurityPolicies
+	}
 	payload := "none"
 	if connectPayload != nil {
 		var arr []struct {
@@ -112,7 +132,7 @@ func vLaspOp(t []string) string {
 	returned := "-"
 	if ok {
 		m := map[string]bool{}
-		json.Unmarshal(rep.RawSecurityPolicies, &m)
+		json.Unmarshal(returnedRaw, &m)
 		returned = vSortedPairs(m)
 	}
 	b := 0
@@ -120,4 +140,62 @@ func vLaspOp(t []string) string {
 		b = 1
 	}
 	return fmt.Sprintf("cmds=%s ok=%d payload=%s returned=%s", strings.Join(cmds, ","), b, payload, returned)
+}
+
+func vLaspViaProcessor(info *AppInfo, client collector.Client) (bool, []byte) {
+	p := NewProcessor(ProcessorConfig{Client: client})
+	p.trackProgress = make(chan struct{})
+	go p.Run()
+	tick := func(d time.Duration) bool {
+		select {
+		case <-p.trackProgress:
+			return true
+		case <-time.After(d):
+			return false
+		}
+	}
+	defer func() {
+		go func() {
+			for tick(200 * time.Millisecond) {
+			}
+			select {
+			case p.quitChan <- struct{}{}:
+			case <-time.After(200 * time.Millisecond):
+			}
+		}()
+	}()
+	if !tick(vWatchdog) { // utilization
+		return false, nil
+	}
+	query := func() []byte {
+		done := make(chan []byte, 1)
+		go func() {
+			rep, _ := CommandsHandler{Processor: p}.HandleMessage(RawMessage{Type: MessageTypeBinary, Bytes: vAppMsg(info)})
+			done <- rep
+		}()
+		select {
+		case rep := <-done:
+			tick(vWatchdog)
+			return rep
+		case <-time.After(vWatchdog):
+			return nil
+		}
+	}
+	query()
+	tick(vWatchdog) // the connect attempt's result
+	rep := query()
+	if rep == nil {
+		return false, nil
+	}
+	msg := protocol.GetRootAsMessage(rep, 0)
+	var tbl flatbuffers.Table
+	if !msg.Data(&tbl) {
+		return false, nil
+	}
+	var ar protocol.AppReply
+	ar.Init(tbl.Bytes, tbl.Pos)
+	if ar.Status() != protocol.AppStatusConnected {
+		return false, nil
+	}
+	return true, append([]byte(nil), ar.SecurityPolicies()...)
 }
